@@ -134,7 +134,7 @@ pub fn run(ctx: &Ctx) {
     let mons = Mons { c02: mon.contains("c02"), c03: mon.contains("c03"), c12: mon.contains("c12"), c17: mon.contains("c17") };
     let batch = ctx.get_u("batch", 1);
     let ncases = if ctx.n > 0 { ctx.n } else { 200 };
-    let pool = build_pool(ctx.seed);
+    let pool = build_pool_ex(ctx.seed, ctx.get_u("nosynth", 0) == 1);
     let images: Vec<Vec<u8>> = pool.targets.iter().map(|t| img(t.addr)).collect();
     let arena_image = bytes_at(pool.synth.arena.base, pool.synth.arena.len);
     // self-check of the pool before anything is patched
@@ -201,23 +201,45 @@ pub fn run(ctx: &Ctx) {
         // the warm-up is itself a case: every target is faked once on its own and restored; a crash
         // here (e.g. a patch written past the end of a mapping) is attributed to it by the parent
         out::intent(warm_idx, "warmup/each-target-once", &J::new().s("crash_sig", "warmup:each-target-faked-once-and-restored"));
+        let mut unpatched: Vec<String> = Vec::new();
         for i in 0..w.pool.targets.len() {
             let t = &w.pool.targets[i];
             let kind = kinds_of(t.fam)[0];
+            let snap0 = if mons.c03 { Some(maps::snapshot()) } else { None };
+            let led0 = ip::ledger_snapshot();
             let mut inj = ip::lib(InjectorPP::new);
             ip::lib(|| install(&mut inj, t, kind, 0, 0));
             let changed = img(t.addr) != w.images[i];
+            if let Some(s0) = &snap0 {
+                // C03 on a single install: every changed byte lies in the named function's 16-byte slot
+                let s1 = maps::snapshot();
+                let newm = new_lib_mappings(&led0);
+                let d = maps::diff(s0, &s1);
+                for &(a, _o, _n) in &d.changed {
+                    if !(a >= t.addr && a < t.addr + 16) && !newm.iter().any(|(m0, l)| a >= *m0 && a < m0 + l) {
+                        out::outcome(warm_idx, "warmup/each-target-once", Verdict::Violated, "c03:byte-outside-entry-slot-changed", &J::new().x("addr", a).x("named_function", t.addr).s("target", &t.name).s("mapping", &s1.name_of(a)).s("during", "single install in warm-up"));
+                        ip::lib(|| drop(inj));
+                        std::process::exit(75);
+                    }
+                }
+            }
             ip::lib(|| drop(inj));
             if !changed {
-                eprintln!("HARNESS-ERROR pool address of {} is not where the library patches", t.name);
-                std::process::exit(2);
+                // the bytes at the address the harness recorded for this target did not change: either the
+                // harness computed the address wrongly or the library patched somewhere else. The monitors
+                // that watch this target are then unfounded => the warm-up case is inconclusive.
+                unpatched.push(t.name.clone());
             }
             if img(t.addr) != w.images[i] || (t.call)() != t.orig {
                 out::outcome(warm_idx, "warmup/each-target-once", Verdict::Violated, "warmup:single-install-not-restored", &J::new().s("target", &t.name));
                 std::process::exit(75);
             }
         }
-        out::outcome(warm_idx, "warmup/each-target-once", Verdict::Held, "", &J::new().n("targets", w.pool.targets.len()));
+        if !unpatched.is_empty() {
+            out::outcome(warm_idx, "warmup/each-target-once", Verdict::Inconclusive, "pool-target-not-patched-at-its-recorded-address", &J::new().arr_s("targets", &unpatched));
+        } else {
+            out::outcome(warm_idx, "warmup/each-target-once", Verdict::Held, "", &J::new().n("targets", w.pool.targets.len()));
+        }
     }
     if mons.c03 {
         w.base_snap = Some(maps::snapshot());
